@@ -140,3 +140,40 @@ def insert_all(t, vals, kind='set'):
         return 'raise'
     raws = [raw_of_abs(t, v) for v in vals]
     return [_index_of(x, raws) for x in collection_keys(st.items[0])]
+
+
+def insert_all_big_map(t, vals, on_chain):
+    """a big_map with an id whose on-chain part holds `vals[i]` for i in on_chain (the node is a dict); then UPDATE k (Some Unit)
+    for every value in the given order.  Returns the key order of the LOCAL part (what the lazy diff and the storage rendering are
+    made from) as indices into `vals`, or 'raise'."""
+    m = _mods()
+    from pytezos.michelson.forge import forge_script_expr
+    from pytezos.michelson.types.base import MichelsonType
+
+    class Stored(m['Ctx']):
+        chain = {}
+
+        def get_big_map_value(self, ptr, key_hash):
+            return self.chain.get(key_hash)
+    try:
+        kcls = MichelsonType.match(G.ty_expr(t))
+        bcls = MichelsonType.match({'prim': 'big_map', 'args': [G.ty_expr(t), {'prim': 'unit'}]})
+        ctx = Stored()
+        ctx.chain = {forge_script_expr(kcls.from_micheline_value(G.to_micheline(vals[i])).pack(legacy=True)): {'prim': 'Unit'} for i in on_chain}
+        bm = bcls.from_micheline_value({'int': '7'})
+        bm.attach_context(ctx)
+        stack = m['Stack'].from_items([bm])
+        seq = []
+        for v in vals:
+            seq += [{'prim': 'PUSH', 'args': [{'prim': 'option', 'args': [{'prim': 'unit'}]}, {'prim': 'Some', 'args': [{'prim': 'Unit'}]}]}, push(t, v), {'prim': 'UPDATE'}]
+        m['Micheline'].match(seq).execute(stack, [], ctx)
+        out = stack.items[0]
+        keys_items = [raw_of_obj(k) for k, _ in out.items]
+        diff = []
+        out.aggregate_lazy_diff(diff)
+        keys_diff = [raw_of_obj(kcls.from_micheline_value(u['key'])) for u in diff[0]['diff']['updates']]
+    except (m['Err'], AssertionError):
+        return 'raise'
+    raws = [raw_of_abs(t, v) for v in vals]
+    a, b = [_index_of(x, raws) for x in keys_items], [_index_of(x, raws) for x in keys_diff]
+    return a if a == b else ('items', a, 'diff', b)
